@@ -18,7 +18,7 @@ theorem gen_eq_model (s : Gen.Self) (now rnd : ℚ) :
     toModel (Gen.updateNext s now rnd) = updateNext (toModel s) now rnd := by
   unfold Gen.updateNext updateNext skipped periodSec toModel
   by_cases hj : s.jitter = 0 <;> by_cases hn : s.next_timeout ≤ now <;>
-    simp [hj, hn, floor_eq]
+    simp [hj, hn, floor_eq] <;> (try push_cast) <;> (try ring)
 
 /-! ## 2. arithmetic (no jitter): `p = callbackTime / 1000 > 0` -/
 
